@@ -170,6 +170,56 @@ def can_be_satisfied(f, trace):
     return False
 
 
+def rv_eval(f, trace, i=0, until_bug=True):
+    """BUG MODEL ONLY (never the reference): emulation of the third-party ``rv_ltl``
+    monitor that Scenic delegates to.  Values: 4 TRUE, 3 PRESUMABLY_TRUE,
+    2 PRESUMABLY_FALSE, 1 FALSE.  With until_bug=True the left operand of `until`
+    evaluated at offset i is checked on [i, min(i+k, last)) instead of [i, k)
+    (rv_ltl 0.1.0, UntilMonitor._evaluate_at)."""
+    f = tup(f)
+    last = len(trace) - 1
+    op = f[0]
+
+    def ev(g, j):
+        return rv_eval(g, trace, j, until_bug)
+
+    def until(l, r, i):
+        for k in range(i, last + 1):
+            v = 4 if r is None else ev(r, k)
+            if v < 3:
+                continue
+            res = v
+            hi = min(i + k, last) if until_bug else k
+            for j in range(i, hi):
+                res = min(res, 4 if l is None else ev(l, j))
+            return res
+        return 2
+
+    if op == "true":
+        return 4
+    if op == "false":
+        return 1
+    if op == "atom":
+        return 4 if trace[i][f[1]] else 1
+    if op == "not":
+        return 5 - ev(f[1], i)
+    if op == "and":
+        return min(ev(f[1], i), ev(f[2], i))
+    if op == "or":
+        return max(ev(f[1], i), ev(f[2], i))
+    if op == "implies":
+        return max(5 - ev(f[1], i), ev(f[2], i))
+    if op == "next":
+        return 2 if i + 1 > last else ev(f[1], i + 1)
+    if op == "until":
+        return until(f[1], f[2], i)
+    if op == "eventually":
+        return until(None, f[1], i)
+    if op == "always":
+        return 5 - until(None, ("not", f[1]), i)
+    raise ValueError(op)
+
+
 def witness_continuation(f, trace, maxlen=6):
     """A concrete continuation (list of valuations) making trace+w satisfy f, or None."""
     f = tup(f)
